@@ -868,6 +868,8 @@ def dir1(ctx, c):
         elif rets_m:
             arms[m_] = rets_m
     emitting = lambda o: isinstance(o.value, Ctor) and (any(k in o.value.kw for k in ("op_code", "post_byte", "additional")) or "size" in o.value.kw)
+    # an arm whose result the interpreter cannot see into (built by a call through a table, a lambda, a factory) is not an arm that emits nothing
+    opaque_arms = {m_ for m_, os_ in arms.items() if m_ in ("FCB", "FDB", "FCC", "RMB") and not any(emitting(o) for o in os_) and any(not isinstance(o.value, Ctor) for o in os_)}
     arms = {m_: os_ for m_, os_ in arms.items() if m_ not in ("FCB", "FDB", "FCC", "RMB") or any(emitting(o) for o in os_)}
     emitters = {"FCB", "FDB", "FCC", "RMB"}
     if arms_open:
@@ -876,7 +878,9 @@ def dir1(ctx, c):
     for r in (pseudo if not arms_open else []):
         m = r.mnemonic
         site = "PseudoOperand.translate:%s" % m
-        if m in emitters:
+        if m in emitters and m in opaque_arms:
+            c.undecided(site, "arm-result-not-visible", "the arm returns the result of a call the interpreter does not expand", where)
+        elif m in emitters:
             c.check(m in arms, site, "has an emitting arm", "no arm", "PseudoOperand.translate has no arm for %s: the directive emits nothing" % m, where)
         else:
             if m in arms:
@@ -1260,8 +1264,18 @@ def inc1(ctx, c):
         c.undecided("process_mnemonics", "loop-not-found", "", where)
         return
     params = [p for p in fn.params if p not in ("self", "cls")]
-    c.check(U(loop.iter) == params[0], "process_mnemonics:iteration", "iterates its input in order", "iterates %s" % U(loop.iter),
-            "process_mnemonics iterates %s instead of the statements it was given" % U(loop.iter), repo.loc(fn, loop))
+    it_ = loop.iter
+    while isinstance(it_, ast.Call) and isinstance(it_.func, ast.Name) and it_.func.id in ("enumerate", "list", "tuple", "iter") and it_.args:
+        it_ = it_.args[0]          # wrappers that keep every element in order
+    # the parameter re-bound to a copy of itself (`statements = list(statements)`) is still the input
+    if U(it_) == params[0]:
+        c.ok("process_mnemonics:iteration", "iterates its input in order", repo.loc(fn, loop))
+    elif (isinstance(it_, ast.Call) and isinstance(it_.func, ast.Name) and it_.func.id in ("reversed", "sorted", "set") and it_.args and U(it_.args[0]) == params[0]) or \
+            (isinstance(it_, ast.Subscript) and isinstance(it_.slice, ast.Slice) and U(it_.value) == params[0]):
+        c.finding("process_mnemonics:iteration", "iterates %s" % U(loop.iter),
+                  "process_mnemonics iterates %s instead of the statements it was given, in their order" % U(loop.iter), repo.loc(fn, loop))
+    else:
+        c.undecided("process_mnemonics:iteration", "loop-source-not-recognised", U(loop.iter)[:60], repo.loc(fn, loop))
     branch = next((n for n in loop.body if isinstance(n, ast.If)), None)
     result = None
     ext = []
